@@ -278,34 +278,34 @@ def _point_laws(cal, ref, cfg, t, n, a, flags):
     for x in 'fpm':
         exp[x] = ref.adj(t, x)
         got = call('adjust(%s, %r)' % (_d(t), x), cal.adjust, T, x)
-        check(_is_dt(got, exp[x]), tag + 'adjust(%s, %r) = %s; nearest business day by day-by-day walk is %s', _d(t), x, _show(got), _d(exp[x]))
+        check(_is_dt(got, exp[x]), tag + 'adjust(%s, %s) = %s; nearest business day by day-by-day walk is %s', _d(t), x, _show(got), _d(exp[x]))
     got = call('adjust(%s)' % _d(t), cal.adjust, T)
-    check(_is_dt(got, exp[cfg['adj']]), tag + 'adjust(%s) with the calendar default adj=%r = %s; expected %s', _d(t), cfg['adj'], _show(got), _d(exp[cfg['adj']]))
+    check(_is_dt(got, exp[cfg['adj']]), tag + 'adjust(%s) with the calendar default adj=%s = %s; expected %s', _d(t), cfg['adj'], _show(got), _d(exp[cfg['adj']]))
     start = exp[eff]
 
     # add(t, n) = n-th business day from adjust(t)
     e = ref.add(t, n, eff)
     what = 'add(%s, %i%s)' % (_d(t), n, '' if a is None else ', adj=%r' % a)
     r = call(what, cal.add, T, n, **kw)
-    check(_is_dt(r, e), tag + '%s = %s; walking %i business days from adjust = %s gives %s', what, _show(r), n, _d(start), _d(e))
+    check(_is_dt(r, e), tag + '%s = %s; walking %s business days from adjust = %s gives %s', what, _show(r), n, _d(start), _d(e))
     # bdays(t, add(t, n)) == n
     b = call('bdays(%s, %s)' % (_d(t), _show(r)), cal.bdays, T, r, **kw)
     check(b == n and isinstance(b, int), tag + 'bdays(%s, %s) = %s where the second date is %s; expected %s', _d(t), _show(r), b, what, n)
     # inverse for a business day t
     if isb:
         back = call('add(%s, %i)' % (_show(r), -n), cal.add, r, -n, **kw)
-        check(_is_dt(back, t), tag + 'add(add(t, %i), %i) = %s for the business day t = %s (add(t, %i) = %s)', n, -n, _show(back), _d(t), n, _show(r))
+        check(_is_dt(back, t), tag + 'add(add(t, %s), %s) = %s for the business day t = %s (add(t, %s) = %s)', n, -n, _show(back), _d(t), n, _show(r))
     # single-step path vs indexed path
     for s in (1, -1):
         one = call('add(%s, %i)' % (_d(t), s), cal.add, T, s, **kw)
         two = call('add(add(%s, %i), %i)' % (_d(t), s, s), cal.add, one, s, **kw)
         direct = call('add(%s, %i)' % (_d(t), 2 * s), cal.add, T, 2 * s, **kw)
-        check(type(direct) is datetime.datetime and direct == two, tag + 'add(%s, %i) = %s but add(add(t, %i), %i) = %s (adj %r)', _d(t), 2 * s, _show(direct), s, s, _show(two), eff)
+        check(type(direct) is datetime.datetime and direct == two, tag + 'add(%s, %s) = %s but add(add(t, %s), %s) = %s (adj %s)', _d(t), 2 * s, _show(direct), s, s, _show(two), eff)
     # second route into add
     if a is None:
         bump = '%ib' % n
         r2 = call('dt_bump(%s, %r)' % (_d(t), bump), cal.dt_bump, T, bump)
-        check(_is_dt(r2, e), tag + 'add reached through dt_bump(%s, %r) = %s; walking gives %s', _d(t), bump, _show(r2), _d(e))
+        check(_is_dt(r2, e), tag + 'add reached through dt_bump(%s, %s) = %s; walking gives %s', _d(t), bump, _show(r2), _d(e))
 
     if not isb:
         flags.add('pt_nonbday')
@@ -438,26 +438,26 @@ def run_all_days(spec):
         for x in 'fpm':
             exp[x] = ref.adj(t, x)
             got = call('adjust(%s, %r)' % (_d(t), x), cal.adjust, T, x)
-            check(_is_dt(got, exp[x]), tag + 'adjust(%s, %r) = %s; day-by-day walk gives %s', _d(t), x, _show(got), _d(exp[x]))
+            check(_is_dt(got, exp[x]), tag + 'adjust(%s, %s) = %s; day-by-day walk gives %s', _d(t), x, _show(got), _d(exp[x]))
         if exp['m'] != exp['f']:
             flags.add('month_end_rule')
         i = idx[exp[adj]]
         for n in range(max(-NMAX, -i), min(NMAX, nb - 1 - i) + 1):
             e = B[i + n]
             r = call('add(%s, %i)' % (_d(t), n), cal.add, T, n)
-            check(_is_dt(r, e), tag + 'add(%s, %i) = %s; the %i-th business day from adjust = %s is %s', _d(t), n, _show(r), n, _d(B[i]), _d(e))
+            check(_is_dt(r, e), tag + 'add(%s, %s) = %s; the %s-th business day from adjust = %s is %s', _d(t), n, _show(r), n, _d(B[i]), _d(e))
             b = call('bdays(%s, %s)' % (_d(t), _show(r)), cal.bdays, T, r)
-            check(b == n, tag + 'bdays(%s, add(t, %i) = %s) = %s', _d(t), n, _show(r), b)
+            check(b == n, tag + 'bdays(%s, add(t, %s) = %s) = %s', _d(t), n, _show(r), b)
             if isb:
                 back = call('add(%s, %i)' % (_show(r), -n), cal.add, r, -n)
-                check(_is_dt(back, t), tag + 'add(add(t, %i), %i) = %s for the business day t = %s', n, -n, _show(back), _d(t))
+                check(_is_dt(back, t), tag + 'add(add(t, %s), %s) = %s for the business day t = %s', n, -n, _show(back), _d(t))
             npts += 1
         for s in (1, -1):
             if 0 <= i + 2 * s < nb:
                 one = call('add(%s, %i)' % (_d(t), s), cal.add, T, s)
                 two = call('add(%s, %i)' % (_show(one), s), cal.add, one, s)
                 direct = call('add(%s, %i)' % (_d(t), 2 * s), cal.add, T, 2 * s)
-                check(direct == two, tag + 'add(%s, %i) = %s but add(add(t, %i), %i) = %s', _d(t), 2 * s, _show(direct), s, s, _show(two))
+                check(direct == two, tag + 'add(%s, %s) = %s but add(add(t, %s), %s) = %s', _d(t), 2 * s, _show(direct), s, s, _show(two))
         u = min(last, t + 9)
         a_, b_ = exp[adj], ref.adj(u, adj)
         got = call("drange(%s, %s, '1b')" % (_d(t), _d(u)), cal.drange, T, _mk(u), '1b')
@@ -473,7 +473,7 @@ def run_all_days(spec):
 R0 = datetime.date(2000, 1, 3).toordinal()      # a Monday
 RW = 70                                          # holidays and observed days lie in [R0, R0 + RW)
 RT0, RT1 = R0 - 40, R0 + RW + 40                 # registered range
-KEYS = ['K1', 'K2', 'k3']
+KEYS = ['K1', 'k2', None]                        # None is the key of the default calendar()
 
 _hols_s = st.lists(st.integers(0, RW - 1), max_size=25)
 _hols1_s = st.lists(st.integers(0, RW - 1), min_size=1, max_size=25)
@@ -543,7 +543,7 @@ class RegistryModel(object):
 
     def op_reregister_obj(self, key, hols):
         if key not in self.model:
-            key = sorted(self.model)[0]
+            key = sorted(self.model, key=repr)[0]
         self._note_rereg(key, hols)
         old = self.model[key]
         c = call('calendar(%r)' % key, self.D.calendar, key)
@@ -562,7 +562,7 @@ class RegistryModel(object):
         check(c2 is c, 'two consecutive calendar(%s) fetches returned different objects', key)
 
     def op_populate(self, key, k, n):
-        keys = [x for x in sorted(self.model) if self.model[x]['small']]
+        keys = [x for x in sorted(self.model, key=repr) if self.model[x]['small']]
         if key not in keys:
             key = keys[0]
         c = call('calendar(%r)' % key, self.D.calendar, key)
@@ -573,7 +573,7 @@ class RegistryModel(object):
     # ---- invariant: every registered key answers according to its LAST registration
     def check(self):
         self.steps += 1
-        for key in sorted(self.model):
+        for key in sorted(self.model, key=repr):
             m = self.model[key]
             c = call('calendar(%r)' % key, self.D.calendar, key)
             obs = [bool(call('calendar(%r).is_bday' % key, c.is_bday, _mk(o))) for o in range(R0, R0 + RW)]
@@ -589,26 +589,26 @@ class RegistryModel(object):
                 check(False, 'calendar(%s) does not reflect its last registration (holidays %s, weekend %s): is_bday differs on %s (is_bday there = %s)',
                       key, [_d(o) for o in sorted(m['hols'])], m['weekends'], [_d(o) for o in bad[:6]], [obs[o - R0] for o in bad[:6]])
             for o in range(R0, R0 + RW, 3):
-                got = call('is_holiday', c.is_holiday, _mk(o))
+                got = call('calendar(%r).is_holiday(%s)' % (key, _d(o)), c.is_holiday, _mk(o))
                 check(bool(got) == (not obs[o - R0]), 'calendar(%s).is_holiday(%s) = %s but is_bday = %s', key, _d(o), got, obs[o - R0])
             ref = Ref(RT0, RT1, match, m['hols'])
             probes = (0, 23, 47)
             for k in probes:
                 t = R0 + k
                 for a in 'fp':
-                    got = call('adjust', c.adjust, _mk(t), a)
-                    check(_is_dt(got, ref.adj(t, a)), 'calendar(%s).adjust(%s, %r) = %s; last registration (holidays %s) implies %s', key, _d(t), a, _show(got),
+                    got = call('calendar(%r).adjust(%s, %r)' % (key, _d(t), a), c.adjust, _mk(t), a)
+                    check(_is_dt(got, ref.adj(t, a)), 'calendar(%s).adjust(%s, %s) = %s; last registration (holidays %s) implies %s', key, _d(t), a, _show(got),
                           [_d(o) for o in sorted(m['hols'])], _d(ref.adj(t, a)))
-                got = call('add', c.add, _mk(t), 1, 'f')
+                got = call('calendar(%r).add(%s, 1, "f")' % (key, _d(t)), c.add, _mk(t), 1, 'f')
                 check(_is_dt(got, ref.add(t, 1, 'f')), 'calendar(%s).add(%s, 1, "f") = %s; last registration implies %s', key, _d(t), _show(got), _d(ref.add(t, 1, 'f')))
             if m['small'] and key in self.tables:
                 # the indexed path must follow the last registration too (a table kept from an earlier registration would show here)
                 for k in probes:
                     t = R0 + k
-                    got = call('add', c.add, _mk(t), 4, 'f')
+                    got = call('calendar(%r).add(%s, 4, "f")' % (key, _d(t)), c.add, _mk(t), 4, 'f')
                     check(_is_dt(got, ref.add(t, 4, 'f')), 'calendar(%s).add(%s, 4, "f") = %s; last registration (holidays %s, weekend %s) implies %s', key, _d(t), _show(got),
                           [_d(o) for o in sorted(m['hols'])], match, _d(ref.add(t, 4, 'f')))
-                got = call('bdays', c.bdays, _mk(R0), _mk(R0 + RW), 'f')
+                got = call('calendar(%r).bdays(%s, %s, "f")' % (key, _d(R0), _d(R0 + RW)), c.bdays, _mk(R0), _mk(R0 + RW), 'f')
                 e = ref.idx[ref.adj(R0 + RW, 'f')] - ref.idx[ref.adj(R0, 'f')]
                 check(got == e, 'calendar(%s).bdays(%s, %s, "f") = %s; last registration implies %s', key, _d(R0), _d(R0 + RW), got, e)
             if 'reregistered_other_holidays' in self.flags:
